@@ -29,8 +29,9 @@ def nodes_by_uuid(ir):
     return {n.uuid: n for n in content.reach(ir)}
 
 
-def perturbations(g, rng, ir):
-    """list of (name, function applying ONE change to ir); each returns False when not applicable"""
+def perturbations(g, rng, ir, choose=None):
+    """list of (name, function applying ONE change to ir); each returns False when not applicable.
+    `choose` picks the element a change is applied to (default: random)"""
     P = []
     mods = list(ir.modules)
     secs = [s for m in mods for s in m.sections]
@@ -50,7 +51,9 @@ def perturbations(g, rng, ir):
         return f
 
     def pick(l):
-        return rng.choice(l) if l else None
+        if not l:
+            return None
+        return choose(l) if choose else rng.choice(l)
     P.append(("ir.uuid", setattr_(ir, "uuid", new_uuid())))
     P.append(("ir.version", setattr_(ir, "version", ir.version + 1)))
     P.append(("ir.aux-key-added", lambda: ir.aux_data.__setitem__("zz-new", g.AuxData(1, "uint8_t"))))
@@ -289,8 +292,23 @@ def node_spec(g, x):
     return None
 
 
+def cfg_spec(g, ir):
+    return sorted((repr(node_spec(g, e.source)), repr(node_spec(g, e.target)),
+                   repr(None if e.label is None else (e.label.type.value, bool(e.label.conditional), bool(e.label.direct)))) for e in ir.cfg)
+
+
 def node_level_pairs(ctx, g, a, b, tag, what):
-    """every node of a against the node of b with the same UUID and class: deep_eq both ways must equal equality of node_spec"""
+    """every node of a against the node of b with the same UUID and class: deep_eq both ways must equal equality of node_spec;
+    and the two CFGs against each other directly (CFG.deep_eq)"""
+    try:
+        want = sorted(map(repr, cfg_spec(g, a))) == sorted(map(repr, cfg_spec(g, b)))
+        xy, yx, other = a.cfg.deep_eq(b.cfg), b.cfg.deep_eq(a.cfg), a.cfg.deep_eq(list(a.cfg))
+        ctx.count("cfg_pairs:" + ("equal" if want else "different"))
+        if xy is not want or yx is not want or other is not False:
+            ctx.add("oracle", "deep_eq-cfg", "after %s the two CFGs are %s (edges with deeply compared endpoints and labels), but a.cfg.deep_eq(b.cfg)=%s, "
+                    "b.cfg.deep_eq(a.cfg)=%s, cfg.deep_eq(a list)=%s" % (what, "equal" if want else "different", xy, yx, other), {"tag": tag, "what": what})
+    except Exception as e:  # noqa: BLE001
+        ctx.add("oracle", "deep_eq-raised:cfg", "CFG.deep_eq raised %s after %s" % (exc_name(g, e), what), {"tag": tag})
     na, nb = nodes_by_uuid(a), nodes_by_uuid(b)
     for u, x in na.items():
         y = nb.get(u)
@@ -317,6 +335,51 @@ def _can_save(x):
         return True
     except Exception:  # noqa: BLE001
         return False
+
+
+def full_ir(g):
+    """one of everything deep_eq compares, so that EVERY kind of the catalogue is applicable on every run"""
+    A = g.SymbolicExpression.Attribute
+    T = g.Edge.Type
+    ir = g.IR()
+    ir.aux_data["t"] = g.AuxData([1, 2], "sequence<uint8_t>")
+    m1 = g.Module(name="one", binary_path="/bin/one", isa=g.Module.ISA.X64, file_format=g.Module.FileFormat.ELF,
+                  byte_order=g.Module.ByteOrder.Little, preferred_addr=4096, rebase_delta=-8, ir=ir)
+    m2 = g.Module(name="two", ir=ir)
+    m1.aux_data["k"] = g.AuxData("v", "string")
+    s1 = g.Section(name="text", flags={g.Section.Flag.Readable, g.Section.Flag.Executable}, module=m1)
+    s2 = g.Section(name="data", flags={g.Section.Flag.Writable}, module=m1)
+    s3 = g.Section(name="other", module=m2)
+    b1 = g.ByteInterval(address=4096, size=32, contents=b"\x01\x02\x03\x04", section=s1)
+    b2 = g.ByteInterval(address=None, size=16, contents=b"zz", section=s1)
+    b3 = g.ByteInterval(address=0, size=8, section=s2)
+    b4 = g.ByteInterval(address=64, size=8, contents=b"q", section=s3)
+    c1 = g.CodeBlock(size=2, offset=0, decode_mode=g.CodeBlock.DecodeMode.Thumb, byte_interval=b1)
+    c2 = g.CodeBlock(size=1, offset=4, byte_interval=b1)
+    d1 = g.DataBlock(size=4, offset=8, byte_interval=b1)
+    d2 = g.DataBlock(size=0, offset=0, byte_interval=b2)
+    c3 = g.CodeBlock(size=1, offset=0, byte_interval=b3)
+    c4 = g.CodeBlock(size=1, offset=0, byte_interval=b4)
+    p1, p2 = g.ProxyBlock(module=m1), g.ProxyBlock(module=m2)
+    y1 = g.Symbol("code", payload=c1, module=m1)
+    y2 = g.Symbol("proxy", payload=p1, at_end=True, module=m1)
+    y3 = g.Symbol("value", payload=77, module=m1)
+    y4 = g.Symbol("none", module=m1)
+    y5 = g.Symbol("unused", payload=d1, module=m1)
+    y6 = g.Symbol("far", payload=c4, module=m2)
+    b1.symbolic_expressions[0] = g.SymAddrAddr(2, 3, y1, y2, {A.GOT})
+    b1.symbolic_expressions[4] = g.SymAddrConst(5, y3, {A.PLT, 31337})
+    b1.symbolic_expressions[8] = g.SymAddrAddr(1, 0, y3, y4)
+    b2.symbolic_expressions[0] = g.SymAddrConst(0, y1)
+    b3.symbolic_expressions[2] = g.SymAddrAddr(4, -1, y4, y1, {A.PCREL})
+    b4.symbolic_expressions[1] = g.SymAddrConst(9, y6)
+    m1.entry_point = c1
+    m2.entry_point = c4
+    L = g.Edge.Label
+    for e in (g.Edge(c1, c2, L(T.Branch, True, False)), g.Edge(c1, c2, L(T.Fallthrough)), g.Edge(c1, c2, None), g.Edge(c2, p1, L(T.Call)),
+              g.Edge(c3, c3, None), g.Edge(p2, c4, L(T.Return, False, False)), g.Edge(c4, c1, L(T.Syscall))):
+        ir.cfg.add(e)
+    return ir
 
 
 def copy_of(g, ir):
@@ -361,6 +424,30 @@ def run(ctx):
             return True
         except Exception:  # noqa: BLE001
             return False
+    # the whole catalogue on a fixed IR holding one of everything, every element of every collection in turn
+    fixed = full_ir(g)
+    judge_pair(fixed, copy_of(g, fixed), "F", "save/load copy of the fixed IR")
+    fixed_kinds = set()
+    for idx in range(6):
+        choose = lambda l, idx=idx: l[idx % len(l)]  # noqa: E731
+        for nm, _ in perturbations(g, ctx.rng, copy_of(g, fixed), choose):
+            cp = copy_of(g, fixed)
+            todo = dict(perturbations(g, ctx.rng, cp, choose))
+            if nm not in todo:
+                continue
+            try:
+                if todo[nm]() is False:
+                    continue
+            except Exception:  # noqa: BLE001
+                continue
+            if spec_canon(content.content_of(g, cp)) == spec_canon(content.content_of(g, fixed)):
+                continue
+            fixed_kinds.add(nm)
+            judge_pair(fixed, cp, "F%d:%s" % (idx, nm), nm)
+            node_level_pairs(ctx, g, fixed, cp, "F%d:%s" % (idx, nm), nm)
+            ctx.case("F%d:%s" % (idx, nm), True)
+            ctx.count("fixed_ir_perturbations")
+    ctx.cov["perturbation_kinds_on_fixed_ir"] = len(fixed_kinds)
     i = 0
     while i < n:
         ir, _ = irgen.gen_ir(g, ctx.rng, cov, n_modules=ctx.rng.choice([1, 2, 3]))
